@@ -4,5 +4,9 @@ CONSTANTS MaxDepth = 2
           Vals <- MCVals
           Limits <- LimitsS
           MaxClose = 2
-INVARIANTS TypeOK ListLaw ValLaw LevelLaw ReadAhead CloseReaches ClosedOnce
+          DocAlpha <- DocsM
+          DocLen = 2
+          DocDepth = 0
+INVARIANTS TypeOK ListLaw ValLaw SrcLaw LevelLaw ReadAhead CloseReaches ClosedOnce
+PROPERTIES OutStable
 CHECK_DEADLOCK FALSE
